@@ -52,7 +52,7 @@ Definition lift (n : nat) (G : list gen) : sys :=
      ineqs := pweight_gt n G :: sign_cs n G |}.
 
 Definition cons_of_gens (n : nat) (G : list gen) : sys :=
-  elim_vars (seq n (length G)) (lift n G).
+  elim_set (seq n (length G)) (lift n G).
 
 (* ---------- dot-product lemmas ---------- *)
 Lemma dot_app a : forall b p i, dot (a ++ b) p i == dot a p i + dot b p (i + length a).
@@ -146,7 +146,7 @@ Qed.
 (* ---------- exactness of the conversion ---------- *)
 Theorem cons_of_gens_exact n G p : sat_sys (cons_of_gens n G) p <-> in_gens n G p.
 Proof.
-  unfold cons_of_gens. rewrite <- elim_vars_exact. set (m := length G). split.
+  unfold cons_of_gens. rewrite <- elim_set_exact. set (m := length G). split.
   - intros [q [Hq Hs]]. apply sat_lift in Hs. destruct Hs as [H1 [H2 [H3 H4]]].
     exists (fun j => q (n + j)%nat).
     assert (SH : forall l, dot l q n == dot l (fun j => q (n + j)%nat) 0).
